@@ -63,6 +63,13 @@ func richItem(rt *rapid.T, o gen.AVOpts) model.Item {
 			it[hn] = model.Str(gen.Str(o.ASCII).Draw(rt, "hashNamed"))
 		}
 	}
+	// attribute names that look like the value placeholders the generator allocates:
+	// the request's value, not the attribute of that name, is what ":v1" in an expression means
+	for _, vn := range []string{":v1", ":v2", ":1", ":_1"} {
+		if rapid.IntRange(0, 39).Draw(rt, "has_"+vn) == 23 {
+			it[vn] = gen.AV(rt, sub, "valueNamed")
+		}
+	}
 	// a document four and five levels deep (paths of four and more segments)
 	if rapid.IntRange(0, 3).Draw(rt, "has_deep") == 2 {
 		leaf := func(l string) model.AV { return model.Str(gen.Str(o.ASCII).Draw(rt, l)) }
@@ -187,6 +194,12 @@ func exprGuards(names map[string]string, paths []model.Path, item model.Item, va
 			if v == k {
 				add("F-PHCOLLIDE")
 			}
+		}
+	}
+	// (the same for an alias that addresses an attribute named like a :value key of the request)
+	for _, v := range names {
+		if _, ok := values[v]; ok {
+			add("F-PHCOLLIDE")
 		}
 	}
 	env := model.Env{Names: names, Values: values}
@@ -386,7 +399,7 @@ func propC06(rt *rapid.T) {
 	{
 		o := avOpts(3, false)
 		it := richItem(rt, o)
-		c := gen.NewExprCtx(it, o)
+		c := gen.NewExprCtx(it, o).Style(rt)
 		c.IllTyped = rapid.SampledFrom([]int{0, 5, 10, 25}).Draw(rt, "illTypedPct")
 		e := c.Cond(rt, rapid.IntRange(0, 5).Draw(rt, "depth"))
 		ec := exprCase{Expr: gen.Decorate(rt, model.Render(e)), Item: it, Names: c.Names, Values: c.Values,
@@ -652,7 +665,7 @@ func TestC07(t *testing.T) {
 		if !absent {
 			it = richItem(rt, o)
 		}
-		c := gen.NewExprCtx(it, o)
+		c := gen.NewExprCtx(it, o).Style(rt)
 		u := c.Update(rt, gen.UpdateCfg{MaxActions: 4, IllTyped: 8})
 		ec := exprCase{Expr: gen.Decorate(rt, model.RenderUpdate(u)), Item: it, Absent: absent, Names: c.Names, Values: c.Values,
 			API: rapid.IntRange(0, 9).Draw(rt, "api") == 0}
